@@ -131,20 +131,81 @@ func c01r1(c *Ctx) {
 // else the reason; notApplicable for in-place debits (governed by C02).
 func creditAddInLevel(p *Prog, owner *Env, objV ssa.Value, at ssa.Instruction, acct, class string) (string, string, bool) {
 	ot := owner.Term(objV)
-	var adds []*ssa.Call
+	// an addition (or subtraction) on the saved entry's Value: in this function, or inside a helper / function literal this
+	// function hands the Value to (its position is then the call made here)
+	type addSite struct {
+		pos    *ssa.Call // the instruction of owner.Fn at which the addition happens
+		env    *Env      // where the Add itself is
+		ac     *ssa.Call // the Add
+		always bool      // inside a helper: the Add lies on every successful path of the helper
+	}
+	var adds []addSite
 	hasSub := false
-	for _, b := range owner.Fn.Blocks {
-		for _, in := range b.Instrs {
-			if ac, ok := in.(*ssa.Call); ok && owner.Term(firstArg(ac)) == "*"+ot+".Value" {
-				switch bigMethod(ac) {
-				case "Add":
-					adds = append(adds, ac)
-				case "Sub":
-					hasSub = true
+	var scan func(env *Env, pos *ssa.Call, depth int)
+	scan = func(env *Env, pos *ssa.Call, depth int) {
+		for _, b := range env.Fn.Blocks {
+			for _, in := range b.Instrs {
+				ac, ok := in.(*ssa.Call)
+				if !ok {
+					continue
+				}
+				if m := bigMethod(ac); m != "" {
+					if env.Term(firstArg(ac)) == "*"+ot+".Value" {
+						switch m {
+						case "Add":
+							here := pos
+							if here == nil {
+								here = ac
+							}
+							always := true
+							if pos != nil {
+								// inside the helper the Add must cut every success return
+								cutB := map[edge]bool{}
+								for _, sb := range ac.Block().Succs {
+									cutB[edge{ac.Block(), sb}] = true
+								}
+								for ed := range errorEdgesOfFn(env.Fn) {
+									cutB[ed] = true
+								}
+								for _, r := range returnsOf(env.Fn) {
+									if (!lastIsError(env.Fn) || isSuccessReturn(r)) && r.Block() != ac.Block() && reachableAvoiding(env.Fn.Blocks[0], r.Block(), cutB) {
+										always = false
+									}
+								}
+							}
+							adds = append(adds, addSite{here, env, ac, always})
+						case "Sub":
+							hasSub = true
+						}
+					}
+					continue
+				}
+				if depth >= 2 {
+					continue
+				}
+				passes := false
+				for _, a := range ac.Call.Args {
+					if isBigIntPtr(a.Type()) && env.Term(a) == "*"+ot+".Value" {
+						passes = true
+					}
+				}
+				if !passes {
+					continue
+				}
+				for _, callee := range env.CalleesIn(ac) {
+					if len(callee.Blocks) == 0 || callee.Pkg == nil || !strings.HasPrefix(callee.Pkg.Pkg.Path(), modPath) {
+						continue
+					}
+					outer := pos
+					if outer == nil {
+						outer = ac
+					}
+					scan(env.Sub(ac, callee), outer, depth+1)
 				}
 			}
 		}
 	}
+	scan(owner, nil, 0)
 	if class == "read-modify-write" {
 		if hasSub && len(adds) == 0 {
 			return "", "", true // a debit of the account's own entry: overdraft guard and direction are C02's
@@ -157,8 +218,9 @@ func creditAddInLevel(p *Prog, owner *Env, objV ssa.Value, at ssa.Instruction, a
 	}
 	why := "no Add onto the saved Value"
 	var good *ssa.Call
-	for _, ac := range adds {
-		x, y := owner.Term(ac.Call.Args[1]), owner.Term(ac.Call.Args[2])
+	for _, as := range adds {
+		ac, ae := as.ac, as.env
+		x, y := ae.Term(ac.Call.Args[1]), ae.Term(ac.Call.Args[2])
 		other, otherV := y, ac.Call.Args[2]
 		if x != "*"+ot+".Value" {
 			other, otherV = x, ac.Call.Args[1]
@@ -167,16 +229,20 @@ func creditAddInLevel(p *Prog, owner *Env, objV ssa.Value, at ssa.Instruction, a
 				continue
 			}
 		}
+		if !as.always {
+			why = "the Add inside " + ae.Fn.Name() + " is conditional there"
+			continue
+		}
 		if class == "read-modify-write" {
-			if strings.Contains(other, "bigBytes(") || isParamValue(otherV) {
-				good = ac
+			if strings.Contains(other, "bigBytes(") || isParamValue(otherV) && ae == owner {
+				good = as.pos
 			} else {
 				why = "the Add's other operand is " + other + ", not the stated amount"
 			}
 			continue
 		}
-		if oo := entryOrigin(owner, valueOwner(otherV), 0); oo == "read:"+acct {
-			good = ac
+		if oo := entryOriginOfValue(ae, otherV, 0); oo == "read:"+acct {
+			good = as.pos
 		} else {
 			why = "the value added is " + other + " (" + oo + "), not the current holding of the credited account"
 		}
